@@ -75,6 +75,7 @@ class Prop(BaseProp):
                     raw.append(rng.choice([t, "   " + t, "      deeper " + t, "# " + t, "#" + t, "  # " + t, "#    " + t, "#\t" + t,
                                            "", "#", " #", "\t" + t, "- item " + t, "#[ " + t, "    # " + t + " #"]))
                 it.raw_lines = raw
+        mod.unasserted = b.unasserted_impl_names
         return mod
 
     def run_case(self, idx, rng):
@@ -120,7 +121,7 @@ class Prop(BaseProp):
             res.violate(o0.crash_class() or "exit", str(o0.exc)[:200], {"text": base})
             return res
         page = rstscan.Page(o0.value)
-        oracle.compare_sequence(res, exp, oracle.observed_top(page), "base")
+        oracle.compare_sequence(res, exp, oracle.observed_top(page), "base", getattr(mod, "unasserted", ()))
         k = 6 if self.tier == "quick" else 9
         differing = 0
         for v in range(k):
